@@ -17,7 +17,7 @@ def write(mod, prop_id, tier, seed, rec, wall, n_viol, enabled, corpus_n=0, shar
         "evaluations": int(rec.evaluations),
         "distinct_nontrivial": int(len(rec.nontrivial)),
         "rule": mod.RULE,
-        "samples": jsonable(rec.samples[:12]),
+        "samples": jsonable(rec.samples[:24]),
         "by_class": by_class,
         "per_subcheck": dict(sorted(rec.per_sub.items())),
         "excluded_by_known": dict(sorted(rec.excluded.items())),
